@@ -4,6 +4,7 @@
 package walletsim
 
 import (
+	"bytes"
 	"crypto/sha256"
 	"encoding/hex"
 	"fmt"
@@ -118,6 +119,7 @@ type sim struct {
 	realGens []addr32 // what GenerateKey of the wallet under test really returned, in order
 
 	viol    *kernel.Violation
+	known   []kernel.Violation
 	harness string
 	stats   map[string]int64
 	states  map[string]bool
@@ -143,6 +145,13 @@ func (s *sim) note(format string, args ...any) {
 	if len(s.ops) < 90 {
 		s.ops = append(s.ops, line)
 	}
+}
+
+func knownTag(acc bool) string {
+	if acc {
+		return " (ACCEPTED: known finding " + keyTrailingNul + ")"
+	}
+	return ""
 }
 
 func okErr(err error) string {
@@ -405,18 +414,47 @@ func (s *sim) wrongPassword(v int) ([]byte, int) {
 	return c[v], v
 }
 
+// nulEquivalent: the two passwords differ only by trailing NUL bytes (and fit one HMAC block).
+// See findings/C46-password-trailing-nul: scrypt = PBKDF2-HMAC-SHA256 zero-pads the password to the
+// HMAC block, so such passwords derive the same key and the driver cannot tell them apart.
+func nulEquivalent(a, b []byte) bool {
+	return len(a) <= 64 && len(b) <= 64 && !bytes.Equal(a, b) && bytes.Equal(bytes.TrimRight(a, "\x00"), bytes.TrimRight(b, "\x00"))
+}
+
+const keyTrailingNul = "password-trailing-nul"
+
 // guarded runs a password-taking call. With the wrong password the call must fail and the full
-// observable state must be the same before and after (and equal to the model).
-func (s *sim) guarded(wrong bool, what string, call func() error) error {
+// observable state must be the same before and after (and equal to the model). accepted reports that
+// a wrong password was accepted and the run goes on (known-finding class only): the caller then
+// makes the model follow what the wallet really did.
+func (s *sim) guarded(wrong bool, pw []byte, what string, call func() error) (err error, accepted bool) {
 	if !wrong {
-		return call()
+		return call(), false
 	}
 	before := s.observe()
-	err := call()
+	err = call()
 	s.stat("fault.wrongpw", 1)
 	if err == nil {
-		s.violate("wrongpw-accepted", what+" succeeded with a wrong password")
-		return err
+		detail := what + " succeeded with a wrong password"
+		if nulEquivalent(pw, s.pw) {
+			// The oracle is not loosened: this IS reported, under a stable key. During exploration it goes
+			// to RunResult.Known (the driver prints KNOWN-FINDING for keys listed open in
+			// known_findings.json) so that one known class does not end every worker's search; in replay
+			// mode (or VERIF_KNOWN_HARD=1) it is an ordinary violation.
+			detail = fmt.Sprintf("%s succeeded with a wrong password: %q instead of %q (differs by trailing NUL bytes only)", what, pw, s.pw)
+			s.stat("known."+keyTrailingNul, 1)
+			if !hardKnown() {
+				if len(s.known) < 4 {
+					s.known = append(s.known, kernel.Violation{Property: "C46", Oracle: "wrongpw-accepted", Key: keyTrailingNul, Detail: detail, Step: s.step})
+				}
+				return nil, true
+			}
+			s.violate("wrongpw-accepted", detail)
+			s.viol.Key = keyTrailingNul
+			return nil, false
+		}
+		s.violate("wrongpw-accepted", detail)
+		return err, false
 	}
 	after := s.observe()
 	if after != before {
@@ -424,8 +462,10 @@ func (s *sim) guarded(wrong bool, what string, call func() error) error {
 	} else if want := s.m.render(); after != want {
 		s.violate("state-mismatch", fmt.Sprintf("around %s with a wrong password the wallet state differs from the reference model\n observed: %s\n expected: %s", what, after, want))
 	}
-	return err
+	return err, false
 }
+
+func hardKnown() bool { return os.Getenv("VERIF_REPLAY") != "" || os.Getenv("VERIF_KNOWN_HARD") != "" }
 
 // ---- operations
 
@@ -450,8 +490,8 @@ var pwOps = []int{opDelete, opExport, opMDK, opInit, opRename}
 
 const (
 	fNone  = 0
-	fWrong = 55 // step.fault%100 in [55,85): wrong password
-	fCrash = 85 // step.fault%100 in [85,100): crash (copy the wallet files) and reopen
+	fWrong = 68 // step.fault%100 in [68,92): wrong password
+	fCrash = 92 // step.fault%100 in [92,100): crash (copy the wallet files) and reopen
 )
 
 func (s *sim) weights() [nOps]int {
@@ -607,9 +647,9 @@ func (s *sim) doStep() {
 			a = s.m.order[t]
 		}
 		was := s.m.present[a]
-		err := s.guarded(wrong, "DeleteKey", func() error { return h.w.DeleteKey(crypto.Digest(a), pw) })
-		s.note("%s %s %s -> %s", pre, s.m.nameOf(a), pwTag, okErr(err))
-		if !wrong {
+		err, acc := s.guarded(wrong, pw, "DeleteKey", func() error { return h.w.DeleteKey(crypto.Digest(a), pw) })
+		s.note("%s %s %s -> %s%s", pre, s.m.nameOf(a), pwTag, okErr(err), knownTag(acc))
+		if !wrong || acc {
 			if err != nil && was {
 				s.violate("rightpw-rejected", "DeleteKey of a present key with the right password failed: "+err.Error())
 			}
@@ -632,8 +672,8 @@ func (s *sim) doStep() {
 			a = cands[t]
 		}
 		var sk crypto.PrivateKey
-		err := s.guarded(wrong, "ExportKey", func() (e error) { sk, e = h.w.ExportKey(crypto.Digest(a), pw); return })
-		s.note("%s %s %s -> %s", pre, s.m.nameOf(a), pwTag, okErr(err))
+		err, acc := s.guarded(wrong, pw, "ExportKey", func() (e error) { sk, e = h.w.ExportKey(crypto.Digest(a), pw); return })
+		s.note("%s %s %s -> %s%s", pre, s.m.nameOf(a), pwTag, okErr(err), knownTag(acc))
 		if !wrong {
 			switch {
 			case s.m.present[a] && err != nil:
@@ -647,8 +687,8 @@ func (s *sim) doStep() {
 
 	case opMDK:
 		var k crypto.MasterDerivationKey
-		err := s.guarded(wrong, "ExportMasterDerivationKey", func() (e error) { k, e = h.w.ExportMasterDerivationKey(pw); return })
-		s.note("%s %s -> %s", pre, pwTag, okErr(err))
+		err, acc := s.guarded(wrong, pw, "ExportMasterDerivationKey", func() (e error) { k, e = h.w.ExportMasterDerivationKey(pw); return })
+		s.note("%s %s -> %s%s", pre, pwTag, okErr(err), knownTag(acc))
 		if !wrong {
 			if err != nil {
 				s.violate("rightpw-rejected", "ExportMasterDerivationKey with the right password failed: "+err.Error())
@@ -658,8 +698,18 @@ func (s *sim) doStep() {
 		}
 
 	case opInit:
-		err := s.guarded(wrong, "Init", func() error { return h.w.Init(pw) })
-		s.note("%s %s -> %s", pre, pwTag, okErr(err))
+		err, acc := s.guarded(wrong, pw, "Init", func() error { return h.w.Init(pw) })
+		s.note("%s %s -> %s%s", pre, pwTag, okErr(err), knownTag(acc))
+		if acc {
+			// The handle now holds the keys under a password that is not the wallet's; drop it (a fresh,
+			// uninitialised handle takes its place) so that the rest of the run is not about this class.
+			var ferr error
+			if h.w, ferr = h.drv.FetchWallet(s.id); ferr != nil {
+				s.harness = "refetch: " + ferr.Error()
+				return
+			}
+			h.inited = false
+		}
 		if !wrong {
 			if err != nil {
 				s.violate("rightpw-rejected", "Init with the right password failed: "+err.Error())
@@ -730,7 +780,7 @@ func (s *sim) doStep() {
 
 func (s *sim) opImport(h *handle, pre string, rA, rB int, eff *[6]int) {
 	m := s.m
-	variant := rA % 4
+	variant := [8]int{0, 1, 2, 3, 1, 1, 0, 3}[rA%8] // 0 fresh, 1 future, 2 present, 3 deleted
 	switch {
 	case variant == 1 && !s.cfg.Future,
 		variant == 2 && len(m.order) == 0,
@@ -1188,6 +1238,7 @@ func (Engine) Run(t *testing.T, prop, tier string, tape *kernel.Tape, keepLog bo
 	res.Digest = s.log.Digest()
 	res.Stats = s.stats
 	res.Violation = s.viol
+	res.Known = s.known
 	res.HarnessErr = s.harness
 	res.Tape = tape.Rec
 	res.LogLines = s.log.Lines
